@@ -1282,7 +1282,7 @@ class Object( object ):
             result	       += USINT.produce(	data.service )
             result	       += b'\x00' # reserved
             result	       += status.produce( 	data )
-            if data.status == 0x00:
+            if data.status == 0x00 and 'get_attributes_all' in data:
                 result	       += typed_data.produce( 	data.get_attributes_all,
                                                         tag_type=USINT.tag_type )
         elif data.get( 'service' ) == cls.GA_LST_RPY:
@@ -1290,7 +1290,7 @@ class Object( object ):
             result	       += USINT.produce(	data.service )
             result	       += b'\x00' # reserved
             result	       += status.produce( 	data )
-            if data.status == 0x00:
+            if data.status == 0x00 and 'get_attribute_list' in data:
                 result	       += typed_data.produce(	data.get_attribute_list,
                                                         tag_type=USINT.tag_type )
         elif data.get( 'service' ) == cls.GA_SNG_RPY:
@@ -1298,7 +1298,7 @@ class Object( object ):
             result	       += USINT.produce(	data.service )
             result	       += b'\x00' # reserved
             result	       += status.produce( 	data )
-            if data.status == 0x00:
+            if data.status == 0x00 and 'get_attribute_single' in data:
                 result	       += typed_data.produce(	data.get_attribute_single,
                                                         tag_type=USINT.tag_type )
         elif data.get( 'service' ) == cls.SA_SNG_RPY:
@@ -1306,7 +1306,7 @@ class Object( object ):
             result	       += USINT.produce(	data.service )
             result	       += b'\x00' # reserved
             result	       += status.produce( 	data )
-        elif cls.SV_COD_CTX in data and data.get( 'service' ):
+        elif cls.SV_COD_CTX in data and data.get( 'service' ) and not data.service & 0x80:
             # Generic CIP Service Code + EPATH, with possible (typed) data payload supplied.
             result	       += USINT.produce(	data.service )
             result	       += EPATH.produce(	data.path )
